@@ -45,6 +45,7 @@ type sysObj struct {
 	Rev     int    `json:"rev,omitempty"`     // content revision (data.rev)
 	MutFrom *jid   `json:"mutFrom,omitempty"` // apply-time mutation source
 	MutExt  bool   `json:"mutExt,omitempty"`  // the mutation annotation lists an external source (ns1/absent) before MutFrom
+	MutBad  bool   `json:"mutBad,omitempty"`  // a second substitution from the same source follows, whose source path matches nothing: rejected after the first one was written
 	Owner   string `json:"owner,omitempty"`   // only for pre-existing objects: owning-inventory annotation value
 }
 
@@ -194,6 +195,10 @@ func manifest(o sysObj) *unstructured.Unstructured {
 		}
 		ann["config.kubernetes.io/apply-time-mutation"] = ext + fmt.Sprintf(
 			"- sourceRef:\n    kind: %s\n    name: %s\n    namespace: %s\n  sourcePath: $.data.rev\n  targetPath: $.data.from\n", s[3], s[1], s[0])
+		if o.MutBad {
+			ann["config.kubernetes.io/apply-time-mutation"] = ann["config.kubernetes.io/apply-time-mutation"].(string) + fmt.Sprintf(
+				"- sourceRef:\n    kind: %s\n    name: %s\n    namespace: %s\n  sourcePath: $.data.nope\n  targetPath: $.data.other\n", s[3], s[1], s[0])
+		}
 	}
 	if o.Owner != "" {
 		ann[inventory.OwningInventoryKey] = o.Owner
